@@ -22,6 +22,11 @@
 #include <gmssl/http.h>
 #include <gmssl/error.h>
 
+// ctime() keeps its result in static storage shared by all threads
+#ifdef WIN32
+#define ctime_r(t, buf) (ctime_s((buf), 26, (t)) == 0 ? (buf) : NULL)
+#endif
+
 
 static const char *x509_crl_reason_names[] = {
 	"unspecified",
@@ -380,11 +385,12 @@ int x509_crl_entry_ext_print(FILE *fp, int fmt, int ind, const char *label, cons
 
 	} else if (oid == OID_ce_invalidity_date) {
 		time_t invalidity_date;
+		char timebuf[26];
 		if (asn1_generalized_time_from_der(&invalidity_date, &v, &vlen) != 1) {
 			error_print();
 			return -1;
 		}
-		format_print(fp, fmt, ind, "invalidityDate: %s", ctime(&invalidity_date));
+		format_print(fp, fmt, ind, "invalidityDate: %s", ctime_r(&invalidity_date, timebuf));
 
 	} else if (oid == OID_ce_certificate_issuer) {
 		const uint8_t *gns;
@@ -620,6 +626,7 @@ int x509_revoked_cert_print(FILE *fp, int fmt, int ind, const char *label, const
 	const uint8_t *p;
 	size_t len;
 	time_t tv;
+	char timebuf[26];
 
 	format_print(fp, fmt, ind, "%s\n", label);
 	ind += 4;
@@ -627,7 +634,7 @@ int x509_revoked_cert_print(FILE *fp, int fmt, int ind, const char *label, const
 	if (asn1_integer_from_der(&p, &len, &d, &dlen) != 1) goto err;
 	format_bytes(fp, fmt, ind, "userCertificate", p, len);
 	if (x509_time_from_der(&tv, &d, &dlen) != 1) goto err;
-	format_print(fp, fmt, ind, "revocationDate: %s", ctime(&tv));
+	format_print(fp, fmt, ind, "revocationDate: %s", ctime_r(&tv, timebuf));
 	if ((ret = asn1_sequence_from_der(&p, &len, &d, &dlen)) < 0) goto err;
 	if (ret) x509_crl_entry_exts_print(fp, fmt, ind, "crlEntryExtensions", p, len);
 	if (asn1_length_is_zero(dlen) != 1) goto err;
@@ -1327,6 +1334,7 @@ int x509_tbs_crl_print(FILE *fp, int fmt, int ind, const char *label, const uint
 	const uint8_t *p;
 	size_t len;
 	time_t tv;
+	char timebuf[26];
 
 	format_print(fp, fmt, ind, "%s\n", label);
 	ind += 4;
@@ -1338,9 +1346,9 @@ int x509_tbs_crl_print(FILE *fp, int fmt, int ind, const char *label, const uint
 	if (x509_name_from_der(&p, &len, &d, &dlen) != 1) goto err;
 	x509_name_print(fp, fmt, ind, "issuer", p, len);
 	if (x509_time_from_der(&tv, &d, &dlen) != 1) goto err;
-	format_print(fp, fmt, ind, "thisUpdate: %s", ctime(&tv));
+	format_print(fp, fmt, ind, "thisUpdate: %s", ctime_r(&tv, timebuf));
 	if ((ret = x509_time_from_der(&tv, &d, &dlen)) < 0) goto err;
-	if (ret) format_print(fp, fmt, ind, "nextUpdate: %s", ctime(&tv));
+	if (ret) format_print(fp, fmt, ind, "nextUpdate: %s", ctime_r(&tv, timebuf));
 	if ((ret = asn1_sequence_from_der(&p, &len, &d, &dlen)) < 0) goto err;
 	if (ret) x509_revoked_certs_print(fp, fmt, ind, "revokedCertificates", p, len);
 	if ((ret = x509_explicit_exts_from_der(0, &p, &len, &d, &dlen)) < 0) goto err;
